@@ -189,6 +189,23 @@ PROPS.update({
                       "the EOF checksum field for the condition-nibble burst that exposed the re-encoding defect.",
         "level_note": VERUS_NOTE + "Iterator::fold contract on slice iterators assumed. The bounded corpus check is labelled bounded and not counted as proved.",
     },
+    "C16": {
+        "title": "A datagram is decoded from its own bytes only",
+        "verus": [],
+        "native": [{"prog": "transport_bounded", "quick": ["search", "quick"], "thorough": ["search", "thorough"], "obligation": "O-C16-own-bytes-N",
+                    "fn": "UdpTransport::receive", "file": "cfdp-daemon/src/transport.rs",
+                    "bound": "every corpus PDU (every kind, both file-size flags, CRC on/off, id widths 1,8; thorough 1,2,4,8) and every truncation of it, delivered over loop-back UDP after a "
+                             "longer datagram (the same PDU in full; 200 octets of 0xFF / 0x00 / 0x05 file data)"}],
+        "level": "other",
+        "technique": "BOUNDED native check of the real UdpTransport::receive over loop-back UDP (differential against PDU::decode on the datagram's own bytes); no contract-based proof: the "
+                     "obligation is one argument expression inside an async trait method awaiting a socket, which neither Verus nor Kani verifies",
+        "design_ref": "DESIGN.md 4/C16",
+        "level_text": "BOUNDED, not proved: for every (first, second) datagram pair of the enumeration, what receive() returns for the second datagram equals what PDU::decode returns on the "
+                      "second datagram's bytes alone (the same PDU, or an error) - stale octets of the longer first datagram never complete a truncated second one. Other transports, "
+                      "datagrams longer than the corpus, interleavings of several senders and the request() path are not covered.",
+        "level_note": "Native program replay/daemon_native/src/bin/transport_bounded.rs compiled against /repo's cfdp-daemon (path dependency; needs loop-back UDP on 127.0.0.1, as the "
+                      "repository's own series tests do). Bounded stand-in only: nothing here is counted as proved. A datagram not delivered within 5 s is reported as undecided (exit 2), never as a violation. ",
+    },
     "C17": {
         "title": "Limit faults fire after exactly the configured expirations; set handler runs",
         "verus": [("timer", ["O-C17-"]), ("send", ["O-C17-"]), ("recv", ["O-C17-"])],
@@ -249,6 +266,5 @@ NOT_APPLICABLE = {
     "C10": "cancel handshakes at both entities under every interleaving and loss pattern: schedules and a peer; the single-entity fragments live in process_pdu (async/iterator-heavy, outside the verifiers' subset)",
     "C11": "isolation of concurrent tokio tasks and routing inside async fn forward_pdu: Kani has no async/thread support, Verus has no model of tokio channels; nothing here is a function contract",
     "C13": "each request's outcome is a function of live filesystem state (exists, is_file, syscalls) which no verifier here executes or models",
-    "C16": "the obligation (decode only the n bytes received) is one argument expression inside an async trait method awaiting a UDP socket; neither tool verifies async bodies or socket history",
     "C18": "one-way/closure behaviour is the interplay of both state machines' process_pdu/send_pdu reactions; not expressible as contracts on the functions within reach",
 }
